@@ -169,6 +169,29 @@ def list_harnesses(pid):
     return [(h, e) for h, (p, e) in harness_table(pid).items()]
 
 
+def start_memory_guard(limit_kb=None):
+    """Kills any cbmc process whose resident set exceeds the limit (default 9 GB): such a harness is
+    reported as 'error' (undecided), it must never take the machine down."""
+    import threading
+    limit_kb = limit_kb or int(os.environ.get("VERIF_CBMC_RSS_KB", str(9 * 1024 * 1024)))
+    stop = threading.Event()
+
+    def loop():
+        while not stop.wait(3.0):
+            try:
+                out = subprocess.run(["ps", "-eo", "pid,rss,comm"], capture_output=True, text=True).stdout
+                for line in out.splitlines()[1:]:
+                    parts = line.split()
+                    if len(parts) >= 3 and parts[2] == "cbmc" and int(parts[1]) > limit_kb:
+                        os.kill(int(parts[0]), 9)
+            except Exception:
+                pass
+
+    t = threading.Thread(target=loop, daemon=True)
+    t.start()
+    return stop.set
+
+
 def run_kani(stage, pid, names, extra_flags, timeout_s, jobs, playback=False):
     """Runs one cargo-kani invocation over `names`; returns {name: result}."""
     paths = {harness_path(pid, n): n for n in names}
@@ -185,6 +208,7 @@ def run_kani(stage, pid, names, extra_flags, timeout_s, jobs, playback=False):
         cmd += ["--harness", p]
     cmd += tail
     t0 = time.time()
+    stop_guard = start_memory_guard()
     try:
         r = subprocess.run(cmd, cwd=os.path.join(stage.dir, LIB), env=ENV, capture_output=True, text=True,
                            timeout=timeout_s * (1 + len(names) // max(1, jobs)) + 1200)
@@ -192,6 +216,8 @@ def run_kani(stage, pid, names, extra_flags, timeout_s, jobs, playback=False):
     except subprocess.TimeoutExpired as e:
         out = (e.stdout or b"").decode(errors="replace") + "\n" + (e.stderr or b"").decode(errors="replace")
         out += "\n[driver] overall timeout\n"
+    finally:
+        stop_guard()
     wall = time.time() - t0
     res = {n: {"status": "missing", "checks": 0, "failed": 0, "undetermined": 0, "failed_checks": [],
                "covers_sat": 0, "covers_total": 0, "time_s": None, "path": p} for p, n in paths.items()}
